@@ -5,6 +5,9 @@ package libp2p
 import (
 	"context"
 
+	pubsub "github.com/libp2p/go-libp2p-pubsub"
+	pubsubpb "github.com/libp2p/go-libp2p-pubsub/pb"
+
 	"github.com/libp2p/go-libp2p/core/peer"
 
 	"github.com/keep-network/keep-core/pkg/net"
@@ -48,6 +51,28 @@ func (vc *VerifC18Channel) Process(
 	message *pb.BroadcastNetworkMessage,
 ) (delivered []net.Message, err error) {
 	err = vc.c.processContainerMessage(proposedSender, message)
+	for {
+		select {
+		case m := <-vc.tap:
+			delivered = append(delivered, m)
+		default:
+			return delivered, err
+		}
+	}
+}
+
+// ProcessPubsub hands a pubsub message to processPubsubMessage: `from` is the
+// signed author of the pubsub message (GetFrom), `receivedFrom` the neighbour
+// it arrived from (they differ for relayed messages). Returns what reached
+// deliver.
+func (vc *VerifC18Channel) ProcessPubsub(
+	from, receivedFrom peer.ID,
+	data []byte,
+) (delivered []net.Message, err error) {
+	err = vc.c.processPubsubMessage(&pubsub.Message{
+		Message:      &pubsubpb.Message{From: []byte(from), Data: data},
+		ReceivedFrom: receivedFrom,
+	})
 	for {
 		select {
 		case m := <-vc.tap:
